@@ -68,6 +68,32 @@ def gen_ops(r, n, allow_seek, nops=None):
                 pos = min(max(t, 0), n)
     return ops
 
+def gen_boundary_case(r):
+    """aimed at the case split of read-ahead: copy buffer non-empty and its bytes still inside the current
+    client block (roll-back), copy buffer compaction, buffer growth, request satisfied exactly at a block end"""
+    p = r.choice([4, 5, 7, 10, 16, 50, 100])
+    nblk = r.randrange(3, 12)
+    n = p * nblk + r.randrange(0, p)
+    data = bytes(r.randrange(256) for _ in range(n))
+    ops, pos = [], 0
+    for _ in range(r.randrange(2, 8)):
+        k = r.randrange(1, p)              # spill into the next block
+        j = r.randrange(1, k + 1)          # bytes left in the copy buffer afterwards (<= bytes taken from the block)
+        t = r.randrange(0, max(1, p - k))  # next request still fits in the current block
+        a1 = p - (pos % p) + k             # reaches k bytes into the next block
+        ops.append([0, a1])
+        ops.append([1, a1 - j])
+        pos += a1 - j
+        ops.append([0, j + t])
+        if r.random() < 0.5:
+            ops.append([0, r.choice([1, j, j + t + 1, p, 2 * p + 1, 3 * p])])
+        c = r.randrange(0, j + 1)
+        ops.append([1, c]); pos += c
+        if pos > n - 3 * p:
+            break
+    rplan = [[0, p]] * (nblk + 2)
+    return vfmt([data, rplan, [], [], 0, 0, ops])
+
 def gen_core_case(r, faults=False):
     n = r.choice([0, 1, 2, 5, 20, 20, 64, 100, 300, 700, 1500, 70000 if r.random() < 0.05 else 40])
     data = bytes((i * 7 + 13 * (i >> 8)) & 0xff for i in range(n)) if n > 2000 else bytes(r.randrange(256) for _ in range(n))
